@@ -17,6 +17,7 @@ pub mod c12;
 pub mod c13;
 pub mod c14;
 pub mod c15;
+pub mod c18;
 pub mod c19;
 pub mod pipes;
 
@@ -115,6 +116,13 @@ pub static PROPS: &[PropDef] = &[
         level: "fault_enumeration",
         run: c15::run,
         replay: c15::replay,
+        workers: w16,
+    },
+    PropDef {
+        id: "C18",
+        level: "exploration",
+        run: c18::run,
+        replay: c18::replay,
         workers: w16,
     },
     PropDef {
